@@ -9,7 +9,10 @@ with the documented levels (`-` when the op uses `if`/`for`/`break`/`continue`, 
 property text names but does not define).
 -/
 import ZygoVerif.Model.Pratt
+import ZygoVerif.Model.InfixFront
+import ZygoVerif.Model.SpacingTok
 import ZygoVerif.Spec.Stratified
+import ZygoVerif.Spec.Spacing
 import ZygoVerif.Driver.Proto
 namespace ZygoVerif.Driver.Expand
 open ZygoVerif.Pratt ZygoVerif.Proto
@@ -28,7 +31,7 @@ def parseItems : Nat → List String → Option String → Option (List Sx × Li
       | none => none
     else if w == "(" then
       match parseItems f ws (some ")") with
-      | some (xs, r) => cont (.list xs) r
+      | some (xs, r) => cont (if xs.isEmpty then .null else .list xs) r     -- `()` is nil
       | none => none
     else if w == "{" then
       match parseItems f ws (some "}") with
@@ -82,9 +85,110 @@ def opsLine : String :=
   let rows := s!"[]:{Generated.InfixTable.arrayOpBp}:0:{if Generated.InfixTable.arrayOpLed == "" then 0 else 1}" :: rows
   " ".intercalate (rows.toArray.qsort (· < ·)).toList
 
+/-! ### `ltoks` / `ltree`: the text goes through the lexer model (and the parser model)
+
+  expand ltoks <spacing> <tok>…  -> the token queue of the fresh lexer after the rendered text and a newline
+  expand ltree <spacing> <tok>…  -> as `tree`, but the model column lexes and parses the rendered text
+Model column: Model/Lexer (+ Model/Parser + Model/Pratt). Spec column: when the spacing is a LEGAL
+spacing of the token sequence (`Spec/Spacing.legal`), the token sequence itself (`ltoks`) or the
+stratified parse of the token list (`ltree`); `-` when the spacing is not legal or a token is
+outside the classes of Spec/Spacing (the specification is silent). -/
+
+/-- text of one token word (as harness/ch_expand.go xpieces) -/
+def pieceText (w : String) : String :=
+  if w == "," || w == ";" || w == "{}" || w == "[" || w == "]" || w == "(" || w == ")" || w == "{" || w == "}" then w
+  else if w.startsWith "l:" then (w.drop 2).toString ++ ":"
+  else if w.startsWith "s:" || w.startsWith "d:" || w.startsWith "n:" || w.startsWith "o:" then (w.drop 2).toString
+  else w
+
+/-- the blanks of gap `i` (≥ 1) under a spacing string (as xrender) -/
+def gapText (sp : String) (i : Nat) : List Char :=
+  let c : Char := if sp == "S" then '1' else (sp.toList.getD i '1')
+  if c == '0' then [] else if c == '2' then ['\n'] else if c == '3' then ['\t'] else if c == '4' then [' ', ' ']
+  else if c == '5' then ['\r', '\n'] else [' ']
+
+def gapsFor (sp : String) (n : Nat) : List (List Char) :=
+  (List.range n).map (fun i => if i == 0 then [] else gapText sp i)
+
+def renderWords (sp : String) (ws : List String) : List Char :=
+  ((gapsFor sp ws.length).zip ws).flatMap (fun (g, w) => g ++ (pieceText w).toList)
+
+def splitOnDot (cs : List Char) : List (List Char) :=
+  cs.foldr (fun c acc => if c == '.' then [] :: acc else
+    match acc with
+    | [] => [[c]]
+    | s :: rest => (c :: s) :: rest) [[]]
+
+/-- a numeral text `[-]digits[.digits][e(+|-)digits]` as a specification token -/
+def numTok? (cs : List Char) : Option Spacing.Tok :=
+  let (neg, body) := match cs with
+    | '-' :: r => (true, r)
+    | _ => (false, cs)
+  let ip := body.takeWhile Spacing.isDigit
+  let r1 := body.dropWhile Spacing.isDigit
+  let (fp, r2) : Option (List Char) × List Char := match r1 with
+    | '.' :: r => (some (r.takeWhile Spacing.isDigit), r.dropWhile Spacing.isDigit)
+    | _ => (none, r1)
+  match r2 with
+  | [] => some (.num neg ip fp none)
+  | 'e' :: s :: ds => if ds.all Spacing.isDigit then some (.num neg ip fp (some (s, ds))) else none
+  | _ => none
+
+/-- the specification token of a token word, when it belongs to the classes of Spec/Spacing -/
+def specTok? (w : String) : Option Spacing.Tok :=
+  if w == "," || w == ";" || w == "[" || w == "]" || w == "(" || w == ")" || w == "{" || w == "}" then
+    some (.punct (w.toList.headD ' '))
+  else if w.startsWith "s:" then
+    let n := (w.drop 2).toString.toList
+    if Spacing.opTexts.contains n then some (.op n) else some (.name false [n])
+  else if w.startsWith "d:" then
+    let n := (w.drop 2).toString.toList
+    match n with
+    | '.' :: r => some (.name true (splitOnDot r))
+    | _ => some (.name false (splitOnDot n))
+  else if w.startsWith "n:" then numTok? (w.drop 2).toString.toList
+  else none
+
+def specItems? (sp : String) (ws : List String) : Option (List Spacing.Item) :=
+  let toks := ws.map specTok?
+  if toks.all Option.isSome then some ((gapsFor sp ws.length).zip (toks.filterMap id)) else none
+
+def showLexTok (t : Lexer.Token) : String :=
+  s!"{t.typ.toNat}:{showCodes (t.str.map Char.toNat)}"
+
+def showLexToks (ts : List Lexer.Token) : String :=
+  if ts.isEmpty then "-" else ",".intercalate (ts.map showLexTok)
+
+/-- the fresh lexer model on `text`: the token queue and what is left pending -/
+def lexAnswer (text : List Char) : String :=
+  match Lexer.feed (.ok Lexer.LexCore.init) text with
+  | .ok s => s!"{showLexToks s.tokens} | st={s.state.toNat} buf={showCodes (s.buffer.map Char.toNat)}"
+  | .err e s => s!"{showLexToks s.tokens} | !{e.name}"
+
 def handle (toks : List String) : String :=
   match toks with
   | ["ops"] => s!"{opsLine}\t-"
+  | "ltoks" :: sp :: ws =>
+    let text := renderWords sp ws ++ ['\n']
+    let m := lexAnswer text
+    let s := match specItems? sp ws with
+      | some items =>
+        if Spacing.legal '\x00' items then s!"{showLexToks (items.map (fun (it : Spacing.Item) => Lexer.expTok it.2))} | st=0 buf=-" else "-"
+      | none => "-"
+    s!"{m}\t{s}"
+  | "ltree" :: sp :: ws =>
+    let src := renderWords sp ws
+    let m := showStmts ((InfixFront.blockOf ('{' :: (src ++ ['\n', '}']))).bind (expandBlock Table.generated))
+    let legal := match specItems? sp ws with
+      | some items => Spacing.legal '\x00' (([], Spacing.Tok.punct '{') :: items ++ [(['\n'], Spacing.Tok.punct '}')])
+      | none => false
+    let s := if !legal then "-" else
+      match parseItems (ws.length + 1) ws none with
+      | some (ts, _) =>
+        if usesSpecial ts || !Stratified.inScope Stratified.documented ts then "-"
+        else showStmts (Stratified.parseBlock Stratified.documented ts)
+      | none => "-"
+    s!"{m}\t{s}"
   | "tree" :: _sp :: ws =>
     match parseItems (ws.length + 1) ws none with
     | some (ts, _) =>
